@@ -81,6 +81,11 @@ pub const TEMPLATES: &[&str] = &[
     "(define-syntax $N $T)",
     "(define-syntax $N (syntax-rules $T))",
     "(define-syntax $N (syntax-rules () ((_ $N) $N)))",
+    "(define-syntax $N (syntax-rules () (($N $N) (define-syntax $N (syntax-rules () (($N) $E))))))",
+    "(define-syntax def-m (syntax-rules () ((def-m name) (define-syntax name (syntax-rules () ((name) $E))))))",
+    "(def-m $N)",
+    "(define-syntax def-v (syntax-rules () ((def-v name e) (define name e))))",
+    "(def-v $N $E)",
     "(import $I)",
     "(import $I $I)",
     "(import $T)",
@@ -685,6 +690,9 @@ pub const WITNESSES: &[&str] = &[
     "(define-syntax m (syntax-rules () ((m a ... b) (quote (b a ...))))) (m 1 2 3)",
     "(define-syntax m (syntax-rules () ((m ...) 1))) (m 1)",
     "(define-syntax m (syntax-rules () ((m (... a)) a))) (m (1))",
+    "(define-syntax def-m (syntax-rules () ((def-m name) (define-syntax name (syntax-rules () ((name) 42)))))) (def-m foo) (foo)",
+    "(define-syntax def-v (syntax-rules () ((def-v name e) (define name e)))) (def-v q 3) q",
+    "(define-syntax m1 (syntax-rules () ((m1) (define-syntax m1 (syntax-rules () ((m1) 7)))))) (m1) (m1)",
     "(let loop ((i 0)) i)",
     "(cond)",
     "(case)",
